@@ -133,15 +133,23 @@ def _c09_stale(case, mm):
     ref = RefRun(case["prog"]).run()
     mutated_owners = set()
     seen_clear = False
+    cleared = []  # handles a clearing step was called on (it empties their consumer sets and those upstream of them)
     for i, s in enumerate(stmts):
         if i >= endA and s["k"] in ("backward", "clear"):
             seen_clear = True
+            cleared.append(s["h"])
         if seen_clear and i >= endA:
             if s["k"] == "op":
                 return True  # any re-use after the clearing step (refills a consumer set)
             elif s["k"] == "inplace":
                 if any(a not in leaves or ref.owner.get(a) in mutated_owners for a in s.get("args", [])):
                     return True  # the written value has a history of its own
+                for a in s.get("args", []):
+                    # ... or is a tensor whose own consumer set a clearing step emptied: the in-place statement is
+                    # then a re-use of it in the sense of (i) (it refills the set)
+                    if ref.is_tensor.get(a) and any(a == ch or (ch in ref.env and ref.tok(a) in ref.D.get(ref.tok(ch), frozenset()))
+                                                    for ch in cleared):
+                        return True
         if s["k"] == "inplace":
             mutated_owners.add(ref.owner.get(s["target"]))
     return False
